@@ -391,6 +391,9 @@ class Repo:
                     continue
                 if len(f.params()) != len(private[key]['params']):
                     continue
+                fp_old = private[key].get('fp') or {}
+                if fp_old and bool(fp_old.get('t:Return')) != bool(fingerprint(f).get('t:Return')):
+                    continue            # one hands a value back, the other does not: a different role (a check that raises, say)
                 callers = [c for c in private[key]['callers'] if self.has_func(c)]
                 if f.module.name != mod and not callers:
                     continue            # a move is only recognised through the former callers
